@@ -9,6 +9,13 @@ TRUST = [
 ]
 
 CONFIG = {
+    "C08": {
+        "level": "exploration",
+        "gates_of": ["C01"],
+        "assumptions": TRUST + ["interleavings of the per-operation goroutines are varied through content-keyed delays and failures at the fakes, not enumerated", "the gateway is stateless between requests apart from the plan cache, so 'alone' is measured on the same gateway afterwards"],
+        "quick": {"tests": [("TestC08", 1500)], "shards": 4, "timeout": 600},
+        "thorough": {"tests": [("TestC08", 10000)], "shards": 16, "timeout": 3000, "race": True},
+    },
     "C13": {
         "level": "exploration",
         "gates_of": ["C01"],
